@@ -9,6 +9,8 @@ pub mod c05;
 pub mod c06;
 pub mod c07;
 pub mod c09;
+pub mod c10;
+pub mod c11;
 pub mod c17;
 pub mod c18;
 pub mod c19;
@@ -24,6 +26,8 @@ pub fn lookup(id: &str) -> Option<&'static dyn Property> {
         "C06" => &c06::C06,
         "C07" => &c07::C07,
         "C09" => &c09::C09,
+        "C10" => &c10::C10,
+        "C11" => &c11::C11,
         "C17" => &c17::C17,
         "C18" => &c18::C18,
         "C19" => &c19::C19,
